@@ -207,7 +207,7 @@ def expand_cases(cases, base, prefix):
 # ---------------------------------------------------------------------------------------------
 # executing cases against the real code (supervised)
 
-def exec_cases(cases_path, events_path, profile="dev", mem_kb=4 * 1024 * 1024, timeout_case=20, total_timeout=3600):
+def exec_cases(cases_path, events_path, profile="dev", mem_kb=4 * 1024 * 1024, timeout_case=20, total_timeout=3600, env=None):
     """Runs pv-exec over a case file under an address-space cap and a watchdog. Cases on which the
     process aborts or hangs are recorded as crash events and execution resumes after them."""
     exe = bin_path("pv-exec", profile)
@@ -222,7 +222,7 @@ def exec_cases(cases_path, events_path, profile="dev", mem_kb=4 * 1024 * 1024, t
         if os.path.exists(prog):
             os.remove(prog)
         p = subprocess.Popen(["bash", "-c", "ulimit -v %d; ulimit -s 65536; exec %s %s %s %d" % (mem_kb, exe, cases_path, events_path, start)],
-                             stdout=subprocess.DEVNULL, stderr=subprocess.PIPE)
+                             stdout=subprocess.DEVNULL, stderr=subprocess.PIPE, env=dict(os.environ, **(env or {})))
         last = (None, time.time())
         why = None
         while True:
@@ -257,6 +257,8 @@ def exec_cases(cases_path, events_path, profile="dev", mem_kb=4 * 1024 * 1024, t
                     break
         ev = {"id": case["id"], "i": 0, "pre": case.get("pre", {}), "act": (case.get("acts") or [case.get("api", {})])[0],
               "post": {"crash": why, "msg": "process %s (rc=%s)" % (why, p.returncode)}}
+        if "predict" in case:
+            ev["predict"] = case["predict"]
         # drop partial events of that case
         _truncate_case(events_path, case["id"])
         with open(events_path, "a") as f:
